@@ -105,6 +105,61 @@ static int tuple_conversion_checks() {
 	return n;
 }
 
+// tuple_cat over tuples with reference elements (const T& and T&&; tuples with a T& element do not compile: recorded D17):
+// like std::tuple_cat the result keeps the reference element types, its reference elements ARE the originals
+// (&get<i>(result) == &original), no element is copied on the way, writes to the originals show through the result.
+// The result types are compared with std::tuple_cat's at run time (if constexpr) so that a wrong type is reported with
+// this failing input instead of breaking the harness build.
+template<typename T> struct as_frg_tuple;
+template<typename... Ts> struct as_frg_tuple<std::tuple<Ts...>> { using type = frg::tuple<Ts...>; };
+struct CatX {
+	int v; int copies;
+	explicit CatX(int x) : v(x), copies(0) {}
+	CatX(const CatX &o) : v(o.v), copies(o.copies + 1) {}
+	CatX &operator=(const CatX &o) { v = o.v; copies = o.copies + 1; return *this; }
+};
+static int tuple_cat_reference_checks() {
+	int n = 0;
+	auto type_ok = [&](const char *what, bool same) { n++; if(!same) vh::oracle("tuple", "tuple_cat %s: the result element types differ from std::tuple_cat's (reference elements must stay references)", what); };
+	auto ident = [&](const char *what, const void *got, const void *orig) { n++; if(got != orig) vh::oracle("tuple", "tuple_cat %s: the reference element of the result is not the original object", what); };
+	CatX x(5); int i = 6; long l = 7;
+	{	// tuple<const X&, int> ++ tuple<long&&>
+		frg::tuple<const CatX &, int> a{x, 1}; std::tuple<const CatX &, int> sa{x, 1};
+		frg::tuple<long &&> b{std::move(l)}; std::tuple<long &&> sb{std::move(l)};
+		auto r = frg::tuple_cat(std::move(a), std::move(b)); auto sr = std::tuple_cat(std::move(sa), std::move(sb));
+		type_ok("(tuple<const X&, int>, tuple<long&&>)", std::is_same_v<decltype(r), as_frg_tuple<decltype(sr)>::type>);
+		static_assert(std::is_same_v<decltype(sr), std::tuple<const CatX &, int, long &&>>);
+		ident("(tuple<const X&, int>, tuple<long&&>) [0]", &r.get<0>(), &x);
+		ident("(tuple<const X&, int>, tuple<long&&>) [2]", &r.get<2>(), &l);
+		n++; if(r.get<0>().copies != 0 || x.copies != 0) vh::oracle("tuple", "tuple_cat copied an element that is held by const reference (%d copies)", r.get<0>().copies);
+		n++; if(r.get<1>() != 1 || r.get<0>().v != std::get<0>(sr).v) vh::oracle("tuple", "tuple_cat over reference tuples: wrong values");
+		x.v = 50; l = 70;
+		n++; if(r.get<0>().v != 50 || r.get<2>() != 70) vh::oracle("tuple", "tuple_cat: a write to the original is not visible through the reference element of the result");
+		x.v = 5; l = 7;
+	}
+	{	// tuple<const X&, const int&> alone and twice, also from lvalue source tuples (moving a reference element is harmless)
+		frg::tuple<const CatX &, const int &> c{x, i}; std::tuple<const CatX &, const int &> sc{x, i};
+		auto r1 = frg::tuple_cat(c); auto s1 = std::tuple_cat(sc);
+		type_ok("(tuple<const X&, const int&>&)", std::is_same_v<decltype(r1), as_frg_tuple<decltype(s1)>::type>);
+		ident("(tuple<const X&, const int&>&) [0]", &r1.get<0>(), &x); ident("(tuple<const X&, const int&>&) [1]", &r1.get<1>(), &i);
+		auto r2 = frg::tuple_cat(c, frg::make_tuple(2.5), c); auto s2 = std::tuple_cat(sc, std::make_tuple(2.5), sc);
+		type_ok("(refs, values, refs)", std::is_same_v<decltype(r2), as_frg_tuple<decltype(s2)>::type>);
+		ident("(refs, values, refs) [0]", &r2.get<0>(), &x); ident("(refs, values, refs) [3]", &r2.get<3>(), &x); ident("(refs, values, refs) [4]", &r2.get<4>(), &i);
+		n++; if(r2.get<2>() != 2.5 || r2.get<3>().copies != 0) vh::oracle("tuple", "tuple_cat(refs, values, refs): wrong value or a copy was made");
+		i = 60; n++; if(r2.get<1>() != 60 || r1.get<1>() != 60) vh::oracle("tuple", "tuple_cat: a write to the original int is not visible through the const int& element");
+		i = 6;
+	}
+	{	// a tuple<T&&> element keeps designating the original (moved-from only if somebody moves from it)
+		CatX y(9);
+		frg::tuple<CatX &&, int> d{std::move(y), 3}; std::tuple<CatX &&, int> sd{std::move(y), 3};
+		auto r = frg::tuple_cat(std::move(d)); auto sr = std::tuple_cat(std::move(sd));
+		type_ok("(tuple<X&&, int>)", std::is_same_v<decltype(r), as_frg_tuple<decltype(sr)>::type>);
+		ident("(tuple<X&&, int>) [0]", &r.get<0>(), &y);
+		n++; if(y.copies != 0 || r.get<0>().copies != 0) vh::oracle("tuple", "tuple_cat copied an element that is held by rvalue reference");
+	}
+	return n;
+}
+
 // run-time checks that do not depend on the script; returns the number of checks made
 static int tuple_fixed_checks() {
 	int n = 0;
@@ -136,6 +191,7 @@ static int tuple_fixed_checks() {
 		n += 2;
 	}
 	n += tuple_conversion_checks();
+	n += tuple_cat_reference_checks();
 	g_log_on = saved;
 	return n;
 }
